@@ -73,6 +73,8 @@ def model_cell(col, v):
     if k == "category":
         if col["labels"] == "text":
             return str(v)
+        if col["labels"] == "bool":
+            return bool(v)
         return int(v) if col["labels"] == "int" else float(v)
     if k == "text":
         return str(v)
@@ -118,7 +120,7 @@ def constant(draw, col, n):
     if not vals:
         base = {"datetime": ("ts", 0), "text": "a", "float": 0.0, "bool": False}.get(kind, 0)
         if kind == "category":
-            base = "a" if col["labels"] == "text" else 0
+            base = "a" if col["labels"] == "text" else False if col["labels"] == "bool" else 0
         vals = [base]
     v = draw(st.sampled_from(sorted(set(vals), key=repr)))
     how = draw(st.integers(0, 9))
